@@ -966,6 +966,9 @@ func setupDir(base string, id *identity, c *Case, files map[string][]byte) strin
 }
 
 func execCase(base string, id *identity, c *Case) *result {
+	if c.MS != nil {
+		return execMS(base, c)
+	}
 	res := &result{}
 	fo := buildFolder(id, c)
 	args, extra := sendArgs(id, c)
